@@ -31,6 +31,9 @@ type ircConn struct {
 	mu sync.RWMutex
 	// lastWrite is used to keep track of when we last wrote to the server.
 	lastWrite time.Time
+	// lastDue is when the event most recently passed to rate() is due to be
+	// written (the time of the call plus the delay that was returned for it).
+	lastDue time.Time
 	// lastActive is the last time the client was interacting with the server,
 	// excluding a few background commands (PING, PONG, WHO, etc).
 	lastActive time.Time
@@ -524,14 +527,31 @@ func (c *Client) write(event *Event) {
 func (c *ircConn) rate(chars int) time.Duration {
 	_time := time.Second + ((time.Duration(chars) * time.Second) / 100)
 
-	if c.writeDelay += _time - time.Since(c.lastWrite); c.writeDelay < 0 {
+	// Credit the time which has passed since the last write. When events are
+	// passed in faster than sendLoop writes them, lastWrite lags behind: never
+	// credit time before the previously rated event was due to be written,
+	// otherwise the same idle period is credited again on every call.
+	now := time.Now()
+	last := c.lastWrite
+	if c.lastDue.After(last) {
+		last = c.lastDue
+	}
+
+	since := now.Sub(last)
+	if since < 0 {
+		since = 0
+	}
+
+	if c.writeDelay += _time - since; c.writeDelay < 0 {
 		c.writeDelay = 0
 	}
 
 	if c.writeDelay > (8 * time.Second) {
+		c.lastDue = now.Add(_time)
 		return _time
 	}
 
+	c.lastDue = now
 	return 0
 }
 
